@@ -1072,14 +1072,28 @@ where
             Filter::Resources(handles, FilterMode::Any, _) => {
                 handles.contains(&textselection.resource().handle())
             }
-            Filter::Annotations(annotations, mode, _, AnnotationDepth::One) => textselection
-                .annotations()
-                .filter_annotations_byref(annotations, *mode)
-                .test(),
-            Filter::BorrowedAnnotations(annotations, mode, _, AnnotationDepth::One) => {
+            Filter::Annotations(annotations, FilterMode::Any, _, AnnotationDepth::One) => {
                 textselection
                     .annotations()
-                    .filter_annotations_byref(annotations, *mode)
+                    .filter_any_byref(annotations)
+                    .test()
+            }
+            Filter::Annotations(annotations, FilterMode::All, _, AnnotationDepth::One) => {
+                textselection
+                    .annotations()
+                    .filter_all(annotations.clone(), textselection.rootstore())
+                    .test()
+            }
+            Filter::BorrowedAnnotations(annotations, FilterMode::Any, _, AnnotationDepth::One) => {
+                textselection
+                    .annotations()
+                    .filter_any_byref(annotations)
+                    .test()
+            }
+            Filter::BorrowedAnnotations(annotations, FilterMode::All, _, AnnotationDepth::One) => {
+                textselection
+                    .annotations()
+                    .filter_all((*annotations).clone(), textselection.rootstore())
                     .test()
             }
             Filter::Annotation(annotation, SelectionQualifier::Normal, AnnotationDepth::One) => {
